@@ -559,6 +559,40 @@ def r8_interface_bodies_accessibility(ctx, rep):
     c04.r5_interface_and_constructor(ctx, rep)
 
 
+def r9_every_use_statement_applied(ctx, rep):
+    """USE statements are cumulative: `use m, only: a` followed by `use m, only: b` gives the scope both names.  The recorded
+    statements are (module, specification) pairs; whoever turns them into imports has to walk the pairs themselves - a mapping
+    keyed by the module (dict(pairs), a dict comprehension) keeps only the last statement of each module."""
+    py = ctx.py
+    n = 0
+    for mod, fn in py.all_functions():
+        if mod != "sourceform":
+            continue
+        parents = None
+        for c in py.walk_calls(fn):
+            if call_name(c).split(".")[-1] != "get_used_entities" or py.enclosing_function(c) is not fn:
+                continue
+            if parents is None:
+                parents = astq.parents_of(fn)
+            loop = astq.enclosing(c, parents, (ast.For,))
+            if loop is None:
+                continue
+            n += 1
+            srcs = [loop.iter] + astq.expand_locals(loop.iter, fn)
+            collapsed = next((x for s_ in srcs for x in ast.walk(s_)
+                              if isinstance(x, ast.DictComp) or (isinstance(x, ast.Call) and call_name(x) in ("dict", "OrderedDict", "collections.OrderedDict")
+                                                                  and x.args)), None)
+            from_uses = any(isinstance(x, ast.Attribute) and x.attr == "uses" for s_ in srcs for x in ast.walk(s_))
+            ok = collapsed is None and from_uses
+            rep.ob(f"{py.qualname(fn)}: imports are taken from every recorded USE statement", ok,
+                   "the loop walks the (module, specification) pairs" if ok else
+                   (f"`{ast.unparse(collapsed)[:60]}` keys the recorded USE statements by module: of several USE statements naming one "
+                    f"module only the last is applied, the names the others make accessible stay unresolved" if collapsed is not None else
+                    f"the loop iterates `{ast.unparse(loop.iter)[:60]}`, which is not derived from the recorded `uses`"), py.nloc(loop))
+    if n < 2:
+        raise AnalysisError(f"only {n} import loop(s) calling get_used_entities found")
+
+
 RULES = [
     RuleSpec("C06.R1", r1_rename_map, "the rename map reaches every import", floor=4),
     RuleSpec("C06.R2", r2_public_only, "only public things cross a module boundary", floor=7),
@@ -567,5 +601,6 @@ RULES = [
     RuleSpec("C06.R5", r5_externalised_tables, "renamed re-exports survive externalisation (shared with C16.R2)", floor=2),
     RuleSpec("C06.R6", r6_tables_read_by_key, "imported entities are looked up under their local name (shared with C07.R10)", floor=1),
     RuleSpec("C06.R7", r7_abstract_interface_bodies, "USE statements in abstract interface bodies are followed like those in interface bodies", floor=2),
+    RuleSpec("C06.R9", r9_every_use_statement_applied, "every recorded USE statement is applied (several per module accumulate)", floor=2),
     RuleSpec("C06.R8", r8_interface_bodies_accessibility, "interface bodies keep their own accessibility (shared with C04.R5)", floor=2),
 ]
